@@ -107,9 +107,113 @@ theorem contract_user_exact (dest : Url) (id : Str) :
     (adjustedDest dest id).host = dest.host ∧ (adjustedDest dest id).rest = dest.rest := by
   simp [adjustedDest, copyURL, setUserName, Url.username, Url.password]
 
+/-! ### the split/join pair and repeated authorisation (every name, every number of repeats) -/
+
+/-- `SplitUsername` then `JoinUsername` gives the name back whenever it had a worker part. -/
+theorem split_join_roundtrip (s : Str) (h : (cutDot s).2.2 = true) :
+    join (cutDot s).1 (cutDot s).2.1 = s := by
+  induction s with
+  | nil => simp [cutDot] at h
+  | cons c cs ih =>
+    unfold cutDot at h ⊢
+    by_cases hc : c = dot
+    · simp [hc, join]
+    · simp only [hc, if_false] at h ⊢
+      have := ih h
+      simp only [join, List.cons_append, List.append_assoc, List.nil_append] at this ⊢
+      rw [this]
+
+/-- a name without a dot has no worker part and is its own account part -/
+theorem split_no_dot (s : Str) (h : dot ∉ s) : cutDot s = (s, [], false) := by
+  induction s with
+  | nil => rfl
+  | cons c cs ih =>
+    have hc : c ≠ dot := fun e => h (by simp [e])
+    have hcs : dot ∉ cs := fun e => h (List.mem_cons_of_mem _ e)
+    simp only [cutDot, hc, if_false, ih hcs]
+
+/-- **The worker part presented to the pool is exactly the miner's own suffix** (everything after
+the first dot of the name the miner authorised with), when a suffix is propagated at all. -/
+theorem worker_suffix_exact (np : Bool) (incoming : Str) (dest : Url)
+    (h : shouldPropagate np incoming dest = true ∧ (cutDot incoming).2.2 = true) :
+    (cutDot (getDestUserName np incoming dest)).2.1 = (cutDot incoming).2.1 ∧
+    (cutDot (getDestUserName np incoming dest)).2.2 = true := by
+  unfold getDestUserName
+  rw [if_pos h, cut_join _ _ (cut_account_no_dot _)]
+  exact ⟨rfl, rfl⟩
+
+/-- **Worker names never accumulate**: setting a worker name on a destination that already carries
+one replaces it (`acct.w1` then `w2` is `acct.w2`, never `acct.w1.w2`). -/
+theorem setWorker_replaces (u : Url) (w1 w2 : Str) :
+    setWorkerName (setWorkerName u w1) w2 = setWorkerName u w2 := by
+  simp only [setWorkerName, setUserName, Url.username, Url.password,
+    cut_join _ _ (cut_account_no_dot _)]
+
+theorem setWorker_idempotent (u : Url) (w : Str) :
+    setWorkerName (setWorkerName u w) w = setWorkerName u w := setWorker_replaces u w w
+
+/-- **Authorising again changes nothing**: a miner that authorises a second time with the same name
+against the destination left behind by its first authorisation is presented with the same user
+name and password, and the destination stays as it was. -/
+theorem authorize_idempotent (np : Bool) (incoming : Str) (dest : Url) :
+    authorize np incoming (authorize np incoming dest).2.2 = authorize np incoming dest := by
+  unfold authorize
+  simp only
+  by_cases h1 : shouldPropagate np incoming dest = true ∧ (cutDot incoming).2.2 = true
+  · rw [if_pos h1]
+    by_cases h2 : shouldPropagate np incoming (setWorkerName dest (cutDot incoming).2.1) = true ∧
+        (cutDot incoming).2.2 = true
+    · rw [if_pos h2, setWorker_idempotent]
+    · rw [if_neg h2]
+  · rw [if_neg h1, if_neg h1]
+
+/-- repeated authorisations, any number of them: the destination after the first one is final -/
+theorem authorize_repeat (np : Bool) (incoming : Str) (dest : Url) (n : Nat) :
+    (Nat.repeat (fun d => (authorize np incoming d).2.2) (n + 1) dest) = (authorize np incoming dest).2.2 := by
+  induction n with
+  | zero => rfl
+  | succ k ih =>
+    show (authorize np incoming (Nat.repeat _ (k + 1) dest)).2.2 = _
+    rw [ih, authorize_idempotent]
+
+/-- the account part survives any sequence of miners authorising one after another against the
+same destination object (the in-place `SetWorkerName` path) -/
+theorem account_kept_sequence (np : Bool) (dest : Url) (names : List Str) :
+    (cutDot (names.foldl (fun d nm => (authorize np nm d).2.2) dest).username).1 = (cutDot dest.username).1 := by
+  induction names generalizing dest with
+  | nil => rfl
+  | cons nm rest ih =>
+    rw [List.foldl_cons, ih]
+    have h1 := authorize_paths_agree np nm dest
+    have h2 := account_kept np nm dest
+    have : (authorize np nm dest).2.2.username = (authorize np nm dest).1 := by
+      unfold authorize; rfl
+    rw [this, h1, h2]
+
+/-- and so does the password, the host and the rest of the URL -/
+theorem password_kept_sequence (np : Bool) (dest : Url) (names : List Str) :
+    (names.foldl (fun d nm => (authorize np nm d).2.2) dest).password = dest.password ∧
+    (names.foldl (fun d nm => (authorize np nm d).2.2) dest).host = dest.host ∧
+    (names.foldl (fun d nm => (authorize np nm d).2.2) dest).rest = dest.rest := by
+  induction names generalizing dest with
+  | nil => exact ⟨rfl, rfl, rfl⟩
+  | cons nm rest ih =>
+    rw [List.foldl_cons]
+    have h := password_kept np nm dest
+    have i := ih (authorize np nm dest).2.2
+    exact ⟨i.1.trans h.1, i.2.1.trans h.2.1, i.2.2.trans h.2.2.1⟩
+
+/-- a contract destination adjusted twice (restart, terms refresh) is adjusted once -/
+theorem adjusted_idempotent (dest : Url) (id : Str) :
+    adjustedDest (adjustedDest dest id) id = adjustedDest dest id := by
+  simp [adjustedDest, copyURL, setUserName, Url.password]
+
+
 /-! ### non-vacuity -/
 def exampleDest : Url := ⟨some ⟨[112, 46, 113], some [120]⟩, [104], []⟩
 example : getDestUserName false [97, 46, 119] exampleDest = [112, 46, 119] := by decide
 example : isHexAddress ([48, 120] ++ List.replicate 40 97) = true := by decide
+example : shouldPropagate false [97, 46, 119] exampleDest = true ∧ (cutDot [97, 46, 119]).2.2 = true := by decide
+example : setWorkerName (setWorkerName exampleDest [119]) [122] = ⟨some ⟨[112, 46, 122], some [120]⟩, [104], []⟩ := by decide
 
 end PRV.Props.C17
